@@ -46,8 +46,10 @@ package fasthttp
 //@   on call parseChunkSize -> size, e:
 //@     nohavoc
 //@     ensures e == nil ==> size >= 0
+//@   ghost trailerRead bool = false
 //@   on call bodyStreamHeader.ReadTrailer -> e:
 //@     nohavoc
+//@     effect trailerRead = (e == nil || e == io.EOF)
 //@   on call readCrLf -> e:
 //@     nohavoc
 //@   on call bufio.Reader.Read#1(_, b) -> k, e:
@@ -69,3 +71,6 @@ package fasthttp
 //@   requires[chunk-state] rs.chunkLeft >= 0
 //@   ensures[state-kept] (cl >= 0 ==> rs.totalBytesRead <= cl) && rs.chunkLeft >= 0
 //@   ensures[result-in-range] 0 <= n && n <= len(p)
+//   A chunked body counts as finished (chunkedDone: drained(), hasUnreadBodyStream()) only once the trailer section after
+//   the last chunk was read too -- until then bytes of this message are still on the wire.
+//@   ensures[done-only-after-the-trailer] rs.chunkedDone && !old(rs.chunkedDone) ==> trailerRead
